@@ -377,9 +377,20 @@ distinct = distinct kind sequences / (message index, offset-in-message class, ty
         let mut rng = Rng::derive(seed, 33, i);
         let mut specs: Vec<Msg31> = Vec::new();
         let mut stream: Vec<u8> = Vec::new();
-        for _ in 0..rng.urange(6, 14) {
+        // as in real volumes, the radials of one stream carry the same volume block, and runs of
+        // them the same elevation and radial blocks; other threads' streams carry others
+        let shared = gen_msg31(&mut rng, 0b0000000111, false, false);
+        let share_all = rng.chance(2, 3);
+        for k in 0..rng.urange(6, 14) {
             let subset = 0b0000000111 | ((rng.below(128) as u16) << 3);
             let mut spec = gen_msg31(&mut rng, subset, false, false);
+            for (b, sb) in spec.blocks.iter_mut().zip(shared.blocks.iter()) {
+                match (&*b, sb) {
+                    (enc::Block::Vol(_), enc::Block::Vol(_)) => *b = sb.clone(),
+                    (enc::Block::Elv(_), enc::Block::Elv(_)) | (enc::Block::Rad(_), enc::Block::Rad(_)) if share_all || k % 4 != 0 => *b = sb.clone(),
+                    _ => {}
+                }
+            }
             for b in spec.blocks.iter_mut() {
                 if let enc::Block::Mom(m) = b {
                     m.gates %= 24;
